@@ -365,6 +365,7 @@ func matchTableDeltas(fromDeltas, toDeltas []TableDelta) (deltas []TableDelta) {
 				deltas = append(deltas, matched)
 				delete(from, f.FromName)
 				delete(to, t.ToName)
+				break
 			}
 		}
 	}
